@@ -109,7 +109,7 @@ async def run_history(
     hooks: dict | None = None,
 ) -> tuple[Outcome | None, dict]:
     """Execute the history (optionally with the library logging at DEBUG). Returns (violation or None, info)."""
-    with env.debug_logging(bool(case.get("debug_log"))), env.FakeClock() as clock:
+    with env.debug_logging(bool(case.get("debug_log"))), env.strict_warnings(case.get("warnings") == "error"), env.FakeClock() as clock:
         hooks = dict(hooks or {})
         hooks["_clock"] = clock
         bad, info = await _run_history(case, aspects, hooks=hooks)
@@ -583,6 +583,12 @@ async def _run_history(
             verdict = hooks["after_step"](rec, gateway, transport, model)
             if verdict is not None:
                 return bad(verdict[0], verdict[1], idx), info
+        if rec.status == "ok" and hasattr(rec.value, "payload"):
+            # the consumer owns what listen() yielded and may change it (e.g. to turn it into a reply): that is nobody else's business
+            try:
+                rec.value.payload, rec.value.ack = "edited-by-the-consumer", 1
+            except Exception:  # noqa: BLE001
+                pass
     if listener is not None:
         await listener.close()
     return None, info
